@@ -29,7 +29,7 @@ def probes_on(model, r, names, stats, report):
                         store_end = arc.in_port if direction == "pull" else arc.out_port
                         plain = kind in ("Arc", "PullArc", "PushArc", "SewerArc", "WeirArc")
                         watch = plain and type(store_end).__qualname__ in STORE_CLASSES
-                        s0 = MN.node_stock(store_end, names) if watch else None
+                        s0 = declared_stock(store_end, names) if watch else None
                         rec0 = MN.cvec(arc.vqip_in, names) if watch else None
                         if direction == "pull":
                             X = frac(arc.send_pull_check()["volume"])
@@ -40,7 +40,7 @@ def probes_on(model, r, names, stats, report):
                             got = frac(rep_v["volume"])
                             want = min(y, X)
                             if watch:
-                                lost = MN.vsub(s0, MN.node_stock(store_end, names))
+                                lost = MN.vsub(s0, declared_stock(store_end, names))
                                 recd = MN.vsub(MN.cvec(arc.vqip_in, names), rec0)
                                 handed = MN.cvec(rep_v, names)
                                 if not (close_v(lost, recd) and close_v(recd, handed)):
@@ -62,7 +62,7 @@ def probes_on(model, r, names, stats, report):
                             got = frac(rep_v["volume"])
                             want = max(y - X, 0)
                             if watch:
-                                gained = MN.vsub(MN.node_stock(store_end, names), s0)
+                                gained = MN.vsub(declared_stock(store_end, names), s0)
                                 recd = MN.vsub(MN.cvec(arc.vqip_in, names), rec0)
                                 gave = MN.vsub(MN.cvec(offer, names), MN.cvec(rep_v, names))
                                 if not (close_v(gained, recd) and close_v(recd, gave)):
@@ -89,6 +89,15 @@ def probes_on(model, r, names, stats, report):
 
 STORE_CLASSES = ("Reservoir", "Storage", "Groundwater", "QueueGroundwater")   # (by __qualname__: a RiverReservoir, which passes spill on, calls itself "Reservoir")
 # nodes whose answer comes out of / goes into their own stores
+
+
+def declared_stock(node, names):
+    """what the node's stores declare to hold (Tank.storage: for a queue tank this includes water in transit inside it
+    and, until close-out, mass its internal arc has already decayed)"""
+    s = MN.zeros(len(names))
+    for k, t in MN.tanks_of(node):
+        s = MN.vadd(s, MN.cvec(t.storage, names))
+    return s
 
 
 def close_v(a, b):
